@@ -40,6 +40,7 @@ func genC01(seed uint64, tier string) C01Cfg {
 		}
 		a := genAdapter(seed, tier, pE)
 		a.Steal = 0
+		a.Direct, a.Outsiders = false, nil // (the adapter-to-adapter mode belongs to C19)
 		return C01Cfg{Adapter: &a, N: a.N, T: a.T, Strategy: a.Strategy, Serial: true, Late: -1}
 	}
 	maxN := 4
